@@ -16,6 +16,8 @@ PROPS = {
     'C02': 'block layout, interleaving, RS codewords',
     'C18': 'embedded-image default frame geometry',
     'C17': 'WASM entry points: option plumbing never traps',
+    'C01': 'every symbol is the ISO symbol of its input (encoder side of decode round-trip)',
+    'C10': 'building is total: no panic, overflow, out-of-bounds, non-termination',
 }
 
 
@@ -66,15 +68,15 @@ def assumptions(b, pid):
 MANIFEST_META = {
     'C05': {
         'text': 'Verus proves, for every usize length, every mode and level, that the real Version::get returns the smallest version whose ISO capacity (4 + count bits + payload bits <= 8 x data codewords; capacity from ISO Table 9 independently of the crate) holds the input and None exactly when version 40 does not; that QRCode::new / QRBuilder::build use a forced version iff it is at least that large and otherwise return exactly the two documented errors; that add_terminator never subtracts below zero (its precondition len <= data_bits is discharged at the call site from the capacity condition).',
-        'note': 'Trusted: Verus/Z3, extraction rules, the ISO model. compact::push_bits is an ASSUMED contract (listed in evidence); placement::create_matrix is assumed for the reported fields.',
+        'note': 'Trusted: Verus/Z3, extraction rules, the ISO model. No assumed contract on the build path.',
     },
     'C06': {
         'text': 'Verus proves that encode::encode returns a buffer whose first iso_data_codewords(v,l) bytes are, bit for bit, the ISO 7.4 stream (mode indicator, count of the prescribed width, 3-digit/2-char/8-bit packing, terminator min(4,room), zero fill to the byte boundary, 0xEC/0x11 alternation) for every input accepted by the mode, every version and level; CompactQR is verified against an abstract bit-sequence view with the invariant that bits past len are zero.',
-        'note': 'compact::push_bits (the unaligned multi-bit push) is an ASSUMED contract: its body is not yet verified; push_u8, push_u8_slice, fill, increase_len and all encoders are proved against it.',
+        'note': 'All of compact.rs and encode.rs is proved (push_bits via bit-vector lemmas on mixed usize/u8 shifts). Trusted: Verus/Z3, extraction rules (R2 descending stepped range in push_bits, R4 in fill, R6 chunks_exact), the ISO model.',
     },
     'C08': {
         'text': 'Verus proves for each of the real mask functions 0,1,2,3,4,7 and the dispatcher that, for every matrix size up to 177 and every matrix content, exactly the Data-typed modules selected by ISO Table 10 pattern k toggle their value bit and nothing else (types, other modules, meta fields, array tail) changes; the offset tables of patterns 5 and 6 are proved to be exactly the ISO residues.',
-        'note': 'The shared two-phase sweep datamasking::mask_5_6 (patterns 5 and 6) is an ASSUMED contract. Mask/format agreement (place_on_matrix) is not yet under contract.',
+        'note': 'All eight patterns incl. the shared 6-periodic sweep of patterns 5/6 are proved; place_on_matrix is proved to apply and report the same mask it writes into the format word.',
     },
     'C09': {
         'text': 'Verus proves best_encoding(input) == Numeric iff all bytes are digits (incl. empty), Alphanumeric iff all are in the 45-character set (written out from ISO Table 5) and not all digits, Byte otherwise, for slices of any length; ascii_to_alphanumeric/ascii_to_digit are proved total on the chosen mode (their panic arms are unreachable) and QRCode::new uses forced.unwrap_or(best).',
@@ -82,19 +84,19 @@ MANIFEST_META = {
     },
     'C03': {
         'text': 'Verus proves that default::create_matrix(v) returns, for each of the 40 versions, a matrix of side 17+4v whose every module equals the ISO blank symbol (finder patterns with separators, timing, Annex E alignment patterns - incl. the lemma that no used centre overlaps a finder -, dark module, version information bits) and that every later stage (format info, masking) changes only what its contract allows; the array tail outside the square is an invariant (tail_default in QRCode::wf).',
-        'note': 'placement::place_on_matrix_data is an ASSUMED contract (it may only change value bits of Data modules). Alignment tables come from the qrcode-0.12 transcription of Annex E.',
+        'note': 'No assumed contract. Alignment tables come from the qrcode-0.12 transcription of Annex E.',
     },
     'C04': {
         'text': 'Verus proves ecm_to_format_information == BCH(15,5)(level,mask) xor 0x5412 and Version::information == BCH(18,6)(version) against GF(2) polynomial division specs for all 32/34 words; that create_matrix_format_info / create_matrix_version_info put bit k at the ISO coordinates (both copies) and nothing else changes; that place_on_matrix writes the format word of the same mask it applies and reports; that QRCode::new reports level (default Q), mode, version, size truthfully.',
-        'note': 'placement::create_matrix (the struct-update that sets mode/ecl/version) is still an ASSUMED contract; place_on_matrix_data assumed.',
+        'note': 'No assumed contract on the path.',
     },
     'C11': {
         'text': 'Verus proves the selection loop of place_on_matrix: with no mask forced the emitted mask k minimises cand_penalty(placed, k) = documented penalty (declarative spec: runs, 1011101 windows, 2x2 blocks, dark ratio) of pattern k applied to the placed matrix, over all 8 patterns; a forced mask overrides. The call-site obligation that columns are scored on the transpose of the very candidate is where the stale-transpose defect of the original code was found (fixed: see known_findings.txt).',
-        'note': 'score::score and its helpers are an ASSUMED contract (r == iso_penalty(qr) given a true transpose): the scoring arithmetic itself is not yet verified.',
+        'note': 'score.rs (line, squares, dark ratio incl. the 100-entry table, sums) is proved equal to the declarative penalty; the candidate is the placed matrix with format cells still reserved, as the crate documents.',
     },
     'C15': {
         'text': 'Same obligations as C03 restricted to labels: for every version and coordinate the label produced by create_matrix is iso_region(v,y,x), and placement/masking/format stages are proved (or, for place_on_matrix_data, assumed) not to change any label.',
-        'note': 'The count identity #Data == 8*total+remainder is not yet mechanised. place_on_matrix_data assumed.',
+        'note': 'The count identity #Data == 8*total+remainder rests on the verified executable checker (model fact, see trusted_base).',
     },
     'C07': {
         'text': 'Verus proves that polynomials::division returns, for every block content and every generator handed to it in exponent form, the state of schoolbook long division of data(x)*x^ec by g(x) over GF(2^8)/0x11D (multiplication defined by shift-and-add, not by tables), including the skip of zero leading coefficients; that the crate LOG/ANTILOG tables are alpha^i / the discrete logarithm (each of the 512 entries checked against the recursive definition); that the log/antilog product equals field multiplication (bit-vector lemma + induction); and that get_polynomial(v,l) is, coefficient by coefficient, the product polynomial (x-alpha^0)...(x-alpha^(ec-1)) of exactly the degree ISO Table 9 prescribes for all 160 (version, level) pairs.',
@@ -102,7 +104,7 @@ MANIFEST_META = {
     },
     'C02': {
         'text': 'Verus proves that ecc_to_groups, data_codewords, max_bytes, missing_bits equal ISO Table 9 / the geometry formula for all 160 cells (with the consistency lemma blocks x sizes + blocks x ec = total), and that polynomials::structure lays out, for every data content, data codeword p of block b at the ISO interleaved position, EC codeword j of block b (the proved division remainder of that block) at dc + j*blocks + b, and zeros beyond the total (hence zero remainder bits before masking); all index arithmetic is proved in bounds.',
-        'note': 'All-zero syndromes and the floor(ec/2) correction capacity follow from EC = data*x^ec mod g with g = prod (x - alpha^i); that algebraic step is NOT mechanised (model-level mathematics, no code involved). placement::create_matrix (hands the bit string to placement) and place_on_matrix_data are still assumed contracts.',
+        'note': 'All-zero syndromes and the floor(ec/2) correction capacity follow from EC = data*x^ec mod g with g = prod (x - alpha^i); that algebraic step is NOT mechanised (model-level mathematics, no code involved). No assumed contract on the path.',
     },
     'C18': {
         'text': 'Kani proves, with a loop-free harness over the complete finite domain (40 sizes x 3 frame shapes, symbolic), that SvgBuilder::image_placement yields a frame whose side is an odd whole number of modules >= 5, below 40% of the symbol side, at least 8 modules clear of every edge (finder + separator), with n - side even (so the centred frame lies on module boundaries), non-decreasing in the version, and an image side that is a whole number between 1 and the frame side.',
@@ -113,17 +115,47 @@ MANIFEST_META = {
         'text': 'Verus verifies the real src/wasm.rs (extracted like any other module): SvgOptions::new establishes, and every setter preserves for ANY argument, the representation invariant (three colour vectors of length 4, size/position vectors of length 0 or 2); under that invariant qr_svg is proved free of index panics and of the Invalid-color-length panic of the builder, and qr()/bool_to_u8 return size*size bytes; qr and qr_svg call the same QRCode::new as the native builder with mode and mask unset. The index-out-of-bounds defect in qr_svg (image_position guarded by image_size) was found by the plain bounds obligation and fixed.',
         'note': 'PARTIAL. color_to_code is an ASSUMED contract that is KNOWN to be false for malformed colour strings (it unwraps from_utf8/from_str_radix): the clause "no setter panics for any colour string" is NOT decided. crate::convert is represented by a hand-written stub of signatures (spec/stub_convert.vrs) - equality of the produced SVG text with the native builder is not decided.',
     },
+    'C01': {
+        'text': 'Verus proves, function by function and for every input/option combination, that QRBuilder::build returning Ok(q) implies iso_symbol_ok(q, input, level, mode, version): the data codewords are the ISO 7.4 stream (encode), the final codeword sequence is the ISO block split / GF(256) remainders / interleaving of them (structure, division), every encoding-region module holds the stream bit of its ISO zig-zag rank and every other module is the blank symbol (place_on_matrix_data, default::create_matrix), and the returned matrix is that placed matrix with the format word of (level, mask) written and exactly that mask applied (place_on_matrix). Each stage is used only through its contract.',
+        'note': 'This is the ENCODER side. The decoder side - the reference reading procedure applied to an ISO symbol returns the input (mask involution, rank is a bijection, de-interleave, segment parsing) - is a statement about the ISO model only and is NOT mechanised. Model facts on module counts come from the verified executable checker (see trusted_base).',
+    },
+    'C10': {
+        'text': 'Every function reachable from QRBuilder::build (12 source files, all bodies verified, none assumed) is proved by Verus free of integer overflow/underflow, out-of-range indexing and slicing, failing unwrap, reachable panic!/unreachable!/assert!/debug assertions (the two debug_assert blocks are kept as must-hold assertions), and every loop and recursion has a proved decreases measure; the only preconditions at the entry point are those the property itself names (a forced mode must accept the input).',
+        'note': 'usize is fixed to 64 bits. Loop headers are normalised by documented rules (see extraction_log). color_to_code in wasm.rs is not on the build path (C17).',
+    },
     'C14': {
         'category': 'other',
         'text': 'Contract part: every QRBuilder setter is proved to write exactly its field and keep all others (last value wins); build(&self) cannot change the builder and its result satisfies a postcondition over the final field values only. Structural part: a scan of /repo/src for static mut / interior mutability / globals / time / randomness must be empty. No schedule exploration exists in this technique family.',
-        'note': 'Functional determinism of the matrix (result == spec function of the options) needs the placement pipeline under contract (not yet); renderers are outside reach (format!/resvg).',
+        'note': 'build() is proved to satisfy iso_symbol_ok over the final field values; with the automatic mask the symbol is determined up to ties only through the (deterministic, proved) selection loop. Renderers are outside reach (format!/resvg); thread independence is the type-system argument (no unsafe, no statics: scanned).',
     },
 }
 
 _NYB = 'not yet built in this round (work in progress; will be claimed or given a final reason)'
 NOT_APPLICABLE = {
-    'C01': _NYB,     'C10': _NYB,     'C12': 'SVG text is built with format!/String::push_str/join and function-pointer calls; Verus has no format!/string-content reasoning and Kani on String code here is prohibitive (4 symbolic bytes > 20 min): no contract within reach can express it',
+            'C12': 'SVG text is built with format!/String::push_str/join and function-pointer calls; Verus has no format!/string-content reasoning and Kani on String code here is prohibitive (4 symbolic bytes > 20 min): no contract within reach can express it',
     'C13': 'pixels come out of usvg/resvg/tiny-skia/png (external crates, floating-point rasterisation); no repository function whose contract could state them and no verifier here reaches those crates',
     'C16': 'terminal renderer builds a String of multi-byte chars via push/push_str/format!; same limits as C12',
     'C19': 'the repository part is two ?-propagations around File::create/write_all/save_png; deciding file contents and fault behaviour needs contracts on std::fs/png, not on this code (Kani spike: foreign close/write unsupported)',
 }
+
+
+HIDDEN_STATE_PATTERNS = [r'\bstatic\s+mut\b', r'\bunsafe\b', r'\b(?:Ref)?Cell\s*<', r'\bAtomic[A-Z]\w*', r'\bMutex\b', r'\bRwLock\b', r'\bthread_local!',
+                         r'\blazy_static!', r'\bOnce(?:Cell|Lock)\b', r'\bstd::env\b', r'\brand::', r'\bSystemTime\b', r'\bInstant\b', r'^\s*(?:pub\s+)?static\s+\w']
+
+
+def scan_hidden_state(repo):
+    """C14 side condition: syntactic scan of the library sources for anything that could make a build depend on
+    history, time, threads or global state.  `#![deny(unsafe_code)]` attributes are not hits."""
+    import glob as _g, os as _o
+    hits = []
+    for path in sorted(_g.glob(_o.path.join(repo, 'src', '**', '*.rs'), recursive=True)):
+        if '/tests/' in path:
+            continue
+        for ln, line in enumerate(open(path, errors='replace'), 1):
+            code = line.split('//')[0]
+            if 'deny(unsafe_code)' in code:
+                continue
+            for pat in HIDDEN_STATE_PATTERNS:
+                if re.search(pat, code):
+                    hits.append('%s:%d: %s' % (_o.path.relpath(path, repo), ln, line.strip()[:100]))
+    return hits
